@@ -244,6 +244,59 @@ Definition min_cost_flow_ll (e : list Z) (c : list (list (nat * Z))) : option (Z
   | _ => None
   end.
 
+(* ------------------------------------------------------------------ the companion flag *)
+(* scan_delta / augment address capacities by node pairs; that is exact only for a hop whose two
+   nodes are joined by exactly one arc.  The flagged run records whether any hop of any augmenting
+   path joined a pair with a different number of arcs (in the graphs of emd_hat_impl.hpp: a hop
+   through the artificial node) or ended at a node of label "max" (unreachable), or left a negative capacity behind. *)
+Definition pair_count (rf : list (list (nat * Z))) (u v : nat) : nat :=
+  (length (filter (fun en => (fst en =? v)%nat) (nth u rf [])) +
+   length (filter (fun en => (fst en =? u)%nat) (nth v rf [])))%nat.
+Definition hop_flag (rf : list (list (nat * Z))) (dd : list Z) (from to : nat) : bool :=
+  negb (pair_count rf from to =? 1)%nat || (INTMAX <=? nz dd to).
+Fixpoint walk_flag (fuel : nat) (rf : list (list (nat * Z))) (dd : list Z) (prev : list nat) (k to : nat) : bool :=
+  match fuel with
+  | O => true
+  | S f => let from := nth to prev O in
+           hop_flag rf dd from to || (if (from =? k)%nat then false else walk_flag f rf dd prev k from)
+  end.
+(* no backward entry carries a negative capacity *)
+Definition caps_ok (rb : list (list (nat * Z * Z))) : bool :=
+  forallb (fun l => forallb (fun en => 0 <=? snd en) l) rb.
+Definition step_flag (st : mcf_state) : bool :=
+  let e := m_e st in
+  let nv := length e in
+  let '(maxSupply, k) := pick_supply e O 0 O in
+  if maxSupply =? 0 then false else
+  match compute_shortest_path nv (m_d st) (m_prev st) k (m_rf st) (m_rb st) e with
+  | None => false
+  | Some (d, prev, rf, rb, l) =>
+      if (l =? k)%nat then false else
+      walk_flag nv rf d prev k l ||
+      match scan_delta nv prev rb k l maxSupply with
+      | None => false
+      | Some delta =>
+          match augment nv prev k l delta e (m_x st) rb with
+          | None => false
+          | Some (_, _, rb') => negb (caps_ok rb')
+          end
+      end
+  end.
+Fixpoint mcf_iter_f (k : nat) (st : mcf_state) (fl : bool) : mstep * bool :=
+  match k with
+  | O => (mcf_step st, fl || step_flag st)
+  | S k' => match mcf_iter_f k' st fl with
+            | (MMore st', fl') => mcf_iter_f k' st' fl'
+            | r => r
+            end
+  end.
+Definition min_cost_flow_ll_f (e : list Z) (c : list (list (nat * Z)))
+  : option (Z * list (list (nat * Z * Z)) * bool) :=
+  match mcf_iter_f ssp_levels (mcf_init e c) false with
+  | (MDone st, fl) => Some (x_dist (m_x st), m_x st, fl)
+  | _ => None
+  end.
+
 (* ------------------------------------------------------------------ emd_hat_impl on top of it *)
 Definition emd_impl_ll (ft : Z) (POrig QOrig Pc Qc : list Z) (Cc : list (list Z)) (emp : Z)
            (F0 : list (list Z)) : option (Z * list (list Z)) :=
@@ -286,11 +339,62 @@ Definition emd_hat_int32_ll (p q : list Z) (c : list (list Z)) (pen : option Z) 
       else Some (d, map (firstn qlen) (firstn plen F))
   end.
 
+(* ------------------------------------------------------------------ the same with the flag threaded through *)
+Definition emd_impl_llf (ft : Z) (POrig QOrig Pc Qc : list Z) (Cc : list (list Z)) (emp : Z)
+           (F0 : list (list Z)) : option (Z * list (list Z) * bool) :=
+  let r := reduce Pc Qc Cc emp in
+  match min_cost_flow_ll_f (r_bb r) (r_cc r) with
+  | None => None
+  | Some (mcf_dist, x, fl) =>
+      let F1 := if ft =? 0 then F0 else read_back r x F0 in
+      let my_dist := r_pre r + mcf_dist + r_diff r * r_pen r in
+      if ft =? 2 then
+        match transform_flow_to_regular F1 POrig QOrig with
+        | None => None
+        | Some F2 => Some (my_dist, F2, fl)
+        end
+      else Some (my_dist, F1, fl)
+  end.
+
+Definition emd_hat_llf (ft : Z) (gd : bool) (P Q : list Z) (C : list (list Z)) (emp : Z)
+  : option (Z * list (list Z) * bool) :=
+  let N := length P in
+  if gd then
+    let pf := preflow P Q in
+    emd_impl_llf ft P Q (map (fun t => fst (fst t)) pf) (map (fun t => snd (fst t)) pf) C emp
+                (diag_mat (map snd pf))
+  else emd_impl_llf ft P Q P Q C emp (zmat N).
+
+Definition emd_hat_int32_llf (p q : list Z) (c : list (list Z)) (pen : option Z) (ft : Z) (gd : bool)
+  : option (Z * list (list Z) * bool) :=
+  let plen := length p in
+  let qlen := length q in
+  let '(vp, vq, vc) :=
+    if (qlen <? plen)%nat then (p, resize plen q, map (resize plen) c)
+    else if (plen <? qlen)%nat then (resize qlen p, q, c ++ repeat (zeros qlen) (qlen - plen))
+    else (p, q, c) in
+  let emp := match pen with Some v => v | None => -1 end in
+  match emd_hat_llf ft gd vp vq vc emp with
+  | None => None
+  | Some (d, F, fl) =>
+      if ft =? 0 then Some (d, [], fl)
+      else Some (d, map (firstn qlen) (firstn plen F), fl)
+  end.
+
 (* wire: (p q c pen? flow_type gd_metric) -> (dist F) | () *)
 Definition entry_emdl (x : sx) : sx :=
   let pen := match as_list (arg 3 x) with [] => None | v :: _ => Some (as_Z v) end in
   match emd_hat_int32_ll (as_Zs (arg 0 x)) (as_Zs (arg 1 x)) (as_Zss (arg 2 x)) pen
                          (as_Z (arg 4 x)) (as_bool (arg 5 x)) with
   | Some (d, F) => L [I d; of_Zss F]
+  | None => L []
+  end.
+
+(* wire: (p q c pen? flow_type gd_metric) -> (dist F flag) | () *)
+Definition entry_emdlf (x : sx) : sx :=
+  let pen := match as_list (arg 3 x) with [] => None | v :: _ => Some (as_Z v) end in
+  match emd_hat_int32_llf (as_Zs (arg 0 x)) (as_Zs (arg 1 x)) (as_Zss (arg 2 x)) pen
+                          (as_Z (arg 4 x)) (as_bool (arg 5 x)) with
+  | Some (d, F, fl) => L [I d; of_Zss F; of_bool fl]
   | None => L []
   end.
